@@ -25,7 +25,7 @@ CHECKS = {
  "C19": ("Option-returning accessors contain no panic site, FusedIterator / ExactSizeIterator obligations of the 4 iterators (no write before None, every yield advances the guarded field), next/size_hint total", "may-panic inventory restricted to the array API; field-write analysis of None paths; size_hint slice", "4/C19"),
 }
 SHARED = {
- "C01": "genotype classification (C08.a/b/c/e), samples-file parser (C09.d), per-record reset (C11.a/b), readers hand on the decoded columns (C10.e, C08.d)",
+ "C01": "genotype classification (C08.a/b/c/e), samples-file parser (C09.d), per-record reset (C11.a/b), readers hand on the decoded columns (C10.e, C08.d), BCF magic tested for both containers (C12.d)",
  "C02": "genotype classification (C08.a/b/c), selection isolation and Error arm (C01.a, C08.f), precision plumbing (C01.d, C07.c/f, C17.f)",
  "C03": "view's project step runs under its own option and its result is written (C13.a/b)",
  "C04": "view's marginalize step and keep->complement (C13.a/b/d), view iterators (C19.b-d)",
@@ -38,7 +38,7 @@ SHARED = {
  "C11": "reader outcomes (C10.e), one update per arm (C01.c, C10.a)",
  "C12": "no short-count reads (C18.a), sibling readers: outcomes and reset (C10.e, C11.d)",
  "C13": "marginalize: validation, renumbering, Array::sum (C04.a/c/d), output files created-or-truncated (C07.g), lossless hand-over (C07.c/f, C17.f, C15.a/d, C16.d), 2i+1 (C02.c)",
- "C14": "Fst pairing and statistic result expressions (C06.e), estimator overrides and f-statistic terms (C06.b/e)",
+ "C14": "Fst pairing and statistic result expressions (C06.e), estimator overrides and f-statistic terms (C06.b/e), marginals keep the remaining axes in order (C04.c/d)",
  "C15": "reader input buffer untouched (C07.e), output files created-or-truncated (C07.g), who may write stdout (C10.d), view writes what its steps produced (C13.a)",
  "C16": "reader input buffer untouched (C07.e)",
  "C17": "guards behind reviewed reasons: marginalize (C04.a), project (C03.a/b), genotype classifier (C08.a/b/e)",
